@@ -28,6 +28,7 @@
 -/
 import XMT.CloseQuiesce
 import XMT.CloseVariant
+import XMT.TeardownInit
 namespace XMT.Props.C16
 open XMT XMT.Close
 
@@ -288,5 +289,152 @@ example : quiescent (cfgF true) nvProgC.length (reach true nvProgC false false 2
   have : t = 0 ∨ t = 1 ∨ t = 2 ∨ t = 3 ∨ t = 4 ∨ t = 5 := by simp [nvProgC] at ht; omega
   rcases this with rfl | rfl | rfl | rfl | rfl | rfl <;> decide
 example : (reach true nvProgC false false 2 nvSchedC).told = 1 := by decide
+
+/-! ## Server / Listener teardown (extension) — model XMT/Teardown.lean
+
+  Threads: the Server loop from its first statement (`go s.listen()`), any number of `Server.Close()`
+  callers, cancellation of the parent context, the `listen` goroutine and any number of `Close()` callers
+  of every Listener, `Server.Remove(id, false)` callers (Sessions shutting down), connection handlers
+  registering new Sessions; channels with their real capacities (a full channel blocks, a closed one
+  panics). A schedule entry is `t + 1000 * arm` (arm = the case Go's `select` / `range` chose).
+  `prog`, `sched`, the number of Listeners `nl` and Sessions `ns` are arbitrary. -/
+
+/-- the state the current tree reaches from a fresh Server (run word 0, loop not yet started) with `nl`
+Listeners in `s.active` and `ns` registered Sessions -/
+abbrev treach (nl ns : Nat) (prog : List Teardown.Kind) (sched : List Nat) : Teardown.St :=
+  Teardown.run (Teardown.cfgF nl) prog.length (Teardown.init (Teardown.cfgF nl) ns prog) sched
+
+/-- What the teardown proofs need from the source (closed by `decide` on Generated/Facts.lean): the loop
+claims the run word with CompareAndSwap(0,1); the channel capacities; the statement order of
+Server.shutdown, Server.Close, Server.Remove(…, false), Listener.Close and of the exit sequence of
+Listener.listen is the order of the model's pcs 110‥119, 120‥122, 150‥151, 140‥144, 134‥139. -/
+theorem td_facts_ok :
+    Facts.c16SrvLoopCAS = true ∧ Facts.c16DelListenerCap = 16 ∧ Facts.c16DelSessionCap = 64 ∧
+    Facts.c16SrvShutdownOrder =
+      ["s.cancel()", "v.Close()", "v.Close()", "delete(s.active, <-s.delListener)", "<-s.delListener",
+       "s.active = nil", "atomic.SwapUint32(&s.run, 2)", "close(s.new)", "close(s.delListener)",
+       "close(s.delSession)", "close(s.events)", "close(s.ch)"] ∧
+    Facts.c16SrvCloseOrder = ["s.cancel()", "atomic.LoadUint32(&s.run)", "s.shutdown()", "<-s.ch"] ∧
+    Facts.c16SrvRemoveOrder = ["s.IsActive()", "s.delSession <- i"] ∧
+    Facts.c16LsnCloseOrder =
+      ["l.state.Closed()", "l.state.Set(stateClosing)", "l.cancel()", "l.state.Replacing()",
+       "l.listener.Close()", "<-l.ch"] ∧
+    Facts.c16LsnExitOrder =
+      ["l.cancel()", "l.state.WakeClosed()", "l.state.Set(stateWakeClose)", "l.listener.Close()",
+       "l.s.delListener <- l.name", "l.state.Set(stateClosed)", "close(l.ch)"] := by decide
+
+theorem td_reach_inv (nl ns : Nat) (prog : List Teardown.Kind) (hu : Teardown.uniqueLL prog = true)
+    (sched : List Nat) : Teardown.Inv (Teardown.cfgF nl) (treach nl ns prog sched) :=
+  Teardown.inv_run (Teardown.cfgF nl) td_facts_ok.1 prog.length sched _
+    (Teardown.inv_init (Teardown.cfgF nl) ns prog hu)
+
+/-- Server / Listener teardown, no double close: under ALL interleavings (and all choices of `select`
+and of the map iteration) of the Server loop, any number of Server.Close() callers, context cancellation,
+the Listener goroutines, any number of Listener.Close() callers, Server.Remove callers and registering
+handlers, each of `s.new`, `s.delListener`, `s.delSession`, `s.events`, `s.ch` and every `l.ch` is closed
+at most once and no thread dies in a close of a closed channel. -/
+theorem td_no_double_close (nl ns : Nat) (prog : List Teardown.Kind)
+    (hu : Teardown.uniqueLL prog = true) (sched : List Nat) :
+    let s := treach nl ns prog sched
+    s.newC ≤ 1 ∧ s.dlC ≤ 1 ∧ s.dsC ≤ 1 ∧ s.evC ≤ 1 ∧ s.chC ≤ 1 ∧ (∀ j, s.lchC j ≤ 1) ∧
+    ∀ t c, (s.loc t).out ≠ .panicClose c := by
+  have h := td_reach_inv nl ns prog hu sched
+  have le1 : ∀ {c k : Nat}, Teardown.closedBy (treach nl ns prog sched) c k → c ≤ 1 := by
+    intro c k hc
+    rcases hc with hc | ⟨hc, _⟩ <;> omega
+  refine ⟨le1 h.newC, le1 h.dlC, le1 h.dsC, le1 h.evC, le1 h.chC, ?_, h.noPanic⟩
+  intro j
+  rcases h.lch j with hj | ⟨hj, _⟩ <;> omega
+
+/-- … because at most one thread ever passes the `SwapUint32(&s.run, 2) == 2` guard of Server.shutdown,
+and once one has, the run word stays 2: a loop goroutine scheduled late cannot restart a finished Server. -/
+theorem td_shutdown_winner_unique (nl ns : Nat) (prog : List Teardown.Kind)
+    (hu : Teardown.uniqueLL prog = true) (sched : List Nat) (t u : Nat)
+    (ht : ((treach nl ns prog sched).loc t).won = true)
+    (hv : ((treach nl ns prog sched).loc u).won = true) :
+    t = u ∧ (treach nl ns prog sched).run = 2 :=
+  ⟨(td_reach_inv nl ns prog hu sched).uniq t u ht hv, (td_reach_inv nl ns prog hu sched).wonRun t ht⟩
+
+/-! ### negations (teardown): the repaired defect on the model of the unrepaired code, the recorded
+findings on the model of the current tree; all replayed on the real code (corpus of c16_s3.go) -/
+
+/-- Server.listen with `SwapUint32(&s.run, 1)` (before the `fix:` commit): two Close() callers of a Server
+whose loop has not started both read run == 0 and enter shutdown(); the first completes it; the loop
+goroutine, scheduled only now, resets the run word 2 → 1 and returns; the second caller passes the swap
+guard and closes `s.new` again: close of closed channel. -/
+def tdLateProg : List Teardown.Kind := [.sclose, .sclose, .loop]
+def tdLateSched : List Nat := [0, 0, 1, 1, 0, 0, 0, 0, 0, 0, 0, 0, 0, 0, 2, 1, 1, 1, 1, 1, 1]
+
+theorem td_orig_late_start_double_close :
+    let cfg := { Teardown.cfgF 0 with loopCAS := false }
+    ((Teardown.run cfg 3 (Teardown.init cfg 0 tdLateProg) tdLateSched).loc 1).out = .panicClose .new := by
+  decide
+
+/-- the same schedule on the current tree: the late loop returns without touching the run word, the second
+caller returns at the guard, Close() returns for both -/
+theorem td_fixed_late_start :
+    let s := treach 0 0 tdLateProg (tdLateSched ++ [0])
+    (s.loc 0).out = .ret ∧ (s.loc 1).out = .ret ∧ (s.loc 2).out = .ret ∧ s.chC = 1 ∧ s.run = 2 := by
+  decide
+
+/-- OPEN: `∀ … t, ((treach …).loc t).out.isPanic = false` (nothing panics during a teardown) is FALSE for
+the current tree: Server.Remove(id, false) tests IsActive() and then sends on `s.delSession`; the Server
+shuts down in between and closes the channel (known/C16.json, panic:teardown:send-on-closed:delSession). -/
+theorem td_remove_send_on_closed :
+    ((treach 0 1 [.remove 0, .loop, .sclose] [1, 0, 2, 2, 1, 1, 1, 1, 1, 1, 1, 1, 1, 1, 0]).loc 0).out
+      = .panicSend .delSession := by
+  decide
+
+/-- OPEN (same statement): on the CURRENT tree a Server.Close() caller that read run == 0 runs shutdown()
+itself while the loop goroutine of the first Listen starts (its claim of the run word succeeds: it is still
+0); the caller closes the channels; the loop's `select` may then take `case l := <-s.new` on the closed
+channel and dereference the nil Listener (`l.name`): the process dies (known/C16.json,
+panic:teardown:other:loop). Go chooses among the ready cases at random: the context arm ends the loop
+cleanly, this arm does not. -/
+theorem td_close_races_loop_start_nil_deref :
+    let s := treach 0 0 [.sclose, .loop] [0, 0, 1, 0, 0, 0, 0, 0, 0, 0, 0, 0, 0, 3001]
+    (s.loc 1).out = .panicNil ∧ s.newC = 1 ∧ s.run = 2 := by
+  decide
+
+/-- 17 Listeners: P, A0‥A16, Z -/
+def tdManyProg (n : Nat) : List Teardown.Kind :=
+  [.loop] ++ (List.range n).map .llisten ++ [.sclose]
+/-- Close() cancels; every Listener goroutine runs its exit sequence (the 17th blocks in
+`l.s.delListener <- l.name`: 16 names are buffered); the loop enters shutdown and calls Close() on that
+Listener first -/
+def tdManySched (n : Nat) : List Nat :=
+  [n + 1] ++ ((List.range n).map fun j => List.replicate 7 (1 + j)).flatten ++ [0, 0, 0, 1000 * n, 0, 0, 0, 0, 0, n + 1]
+
+/-- OPEN: "every Server.Close() call returns" is FALSE for a Server with more Listeners than
+cap(s.delListener) = 16: Server.shutdown closes the Listeners one after the other and only afterwards
+receives from `s.delListener`; the 17th Listener goroutine blocks in its send, its `l.ch` is never
+closed, shutdown waits for it in Listener.Close: no thread can move, Close() has not returned
+(known/C16.json, hang:teardown:*). -/
+theorem td_many_listeners_deadlock :
+    let s := treach 17 0 (tdManyProg 17) (tdManySched 17)
+    (List.range 19).all (fun t => !Teardown.enabled (Teardown.cfgF 17) s t) = true ∧
+    (s.loc 0).pc = 144 ∧ (s.loc 17).pc = 137 ∧ (s.loc 18).pc = 122 ∧ s.ctxDone = true ∧ s.chC = 0 := by
+  decide
+
+/-! ### non-vacuity (teardown) -/
+
+example : Teardown.uniqueLL (tdManyProg 17) = true := by decide
+example : Teardown.uniqueLL [.loop, .llisten 0, .llisten 1, .lclose 1, .lclose 1, .sclose, .sclose, .cancel,
+    .remove 0, .register 1 2] = true := by decide
+example : Teardown.uniqueLL [.llisten 0, .llisten 0] = false := by decide
+
+/-- with 16 Listeners the same teardown runs to its end: every Listener closed, all five Server channels
+closed once, both the loop and Close() have returned -/
+def tdFullSched (n : Nat) : List Nat :=
+  [n + 1] ++ ((List.range n).map fun j => List.replicate 7 (1 + j)).flatten ++ [0, 0, 0, 1000 * n] ++
+  ((List.range n).map fun k => [0, 1000 * (n - 1 - k)]).flatten ++ [0] ++ List.replicate n 0 ++
+  [0, 0, 0, 0, 0, 0, 0, n + 1, n + 1]
+
+example :
+    let s := treach 16 0 (tdManyProg 16) (tdFullSched 16)
+    (List.range 18).all (fun t => (s.loc t).out == .ret) = true ∧ s.chC = 1 ∧ s.dlC = 1 ∧ s.run = 2 ∧
+    (List.range 16).all (fun j => s.lchC j == 1 && s.lClosed j) = true := by
+  decide
+
 
 end XMT.Props.C16
